@@ -133,6 +133,32 @@ static void panel(vt::Rng& r, int reps) {
     for (int64_t f : fss) join<Rep, Ratio>(s, f);
 }
 
+// tick periods that are a proper fraction with a numerator other than 1 (NTSC frames, 3/2 s, 2/3 s ...): only the WHOLE second
+// is asked (lookup, convert, %s, %S) - what such types do with the remainder is outside the property
+template <typename Rep, typename Ratio>
+static void rational(vt::Rng& r, int reps) {
+  typedef std::chrono::duration<Rep, Ratio> D;
+  typedef time_point<D> TPD;
+  const vt::i128 num = Ratio::num, den = Ratio::den;
+  std::vector<vt::i128> cs;
+  for (int k = -70; k <= 70; ++k) cs.push_back(k);
+  for (vt::i128 k : {(vt::i128)1, (vt::i128)2, (vt::i128)7, (vt::i128)1000, (vt::i128)86400, (vt::i128)14182940})
+    for (int d = -3; d <= 3; ++d) { cs.push_back(k * den + d); cs.push_back(-k * den + d); cs.push_back(k * den / num + d); cs.push_back(-(k * den / num) + d); }
+  for (int i = 0; i < reps; ++i) { cs.push_back(r.range(-2000000000LL, 2000000000LL)); cs.push_back(-(vt::i128)(r.next() % 1000000)); }
+  for (vt::i128 c128 : cs) {
+    const TPD tp = TPD() + D((Rep)c128);
+    int ub, ub2, ub3;
+    civil_second a, b;
+    std::string o;
+    VT_GUARD(ub, a = convert(tp, g_utc));
+    VT_GUARD(ub2, b = g_utc.lookup(tp).cs);
+    VT_GUARD(ub3, o = format("%s|%S", tp, g_utc));
+    out->emit("{\"e\":\"LookupQ\",\"num\":" + std::to_string((long long)num) + ",\"den\":" + W(den) + ",\"c\":" + W(c128) + ",\"cs\":" +
+              (ub ? std::string("[[1],1,1,0,0,0]") : vt::F(a)) + ",\"cs2\":" + (ub2 ? std::string("[[1],1,1,0,0,0]") : vt::F(b)) + ",\"out\":" + bj(o) +
+              ",\"ub\":" + std::to_string(ub | ub2 | ub3) + "}");
+  }
+}
+
 // 64-bit counts of minutes / hours / days: every second of the int64 range has a floor in them, including the
 // outermost Num seconds of both ends (where a "round towards the floor" written as subtract-then-divide wraps)
 template <typename Rep, typename Ratio>
@@ -174,6 +200,11 @@ int main(int argc, char** argv) {
   panel<int64_t, std::ratio<1, 60>>(r, reps);
   panel<int64_t, std::ratio<1, 90000>>(r, reps);
   panel<int64_t, std::ratio<1, 7>>(r, reps);
+  rational<int64_t, std::ratio<1001, 30000>>(r, reps);
+  rational<int64_t, std::ratio<3, 2>>(r, reps);
+  rational<int64_t, std::ratio<2, 3>>(r, reps);
+  rational<int32_t, std::ratio<1001, 60000>>(r, reps);
+  rational<int64_t, std::ratio<5, 7>>(r, reps);
   join_limits<int64_t, std::ratio<60>>();
   join_limits<int64_t, std::ratio<3600>>();
   join_limits<int64_t, std::ratio<86400>>();
